@@ -493,6 +493,11 @@ fn has_class(rep: &RunReport, class: &str) -> bool {
 fn minimise(h: &History, class: &str, cfg: &Cfg, oracle: &Oracle, budget: usize) -> (History, usize) {
     let mut attempts = 0usize;
     let mut best = h.clone();
+    // Every confirming candidate of a hang / step-cap violation costs a full timeout: keep the
+    // minimisation of those short, and bound every minimisation by wall-clock time as well.
+    let budget = if class == "hang" || class == "step-cap" { budget.min(24) } else { budget };
+    let began = Instant::now();
+    let wall_cap = Duration::from_secs(simcore::env_usize("VERIF_C08_MINIMISE_SECS", 600) as u64);
     // 1. freeze the schedule into an explicit decision list
     if best.flavour == "sim" {
         let rep = run_and_check(&best, cfg, oracle, false);
@@ -527,7 +532,7 @@ fn minimise(h: &History, class: &str, cfg: &Cfg, oracle: &Oracle, budget: usize)
     };
     let base = best.clone();
     let reduced = simcore::ddmin(flat, |items| {
-        if attempts >= budget {
+        if attempts >= budget || began.elapsed() > wall_cap {
             return false;
         }
         attempts += 1;
@@ -539,7 +544,7 @@ fn minimise(h: &History, class: &str, cfg: &Cfg, oracle: &Oracle, budget: usize)
     if !best.faults.is_empty() {
         let base = best.clone();
         let f = simcore::ddmin(best.faults.clone(), |fs| {
-            if attempts >= budget {
+            if attempts >= budget || began.elapsed() > wall_cap {
                 return false;
             }
             attempts += 1;
@@ -584,7 +589,7 @@ fn minimise(h: &History, class: &str, cfg: &Cfg, oracle: &Oracle, budget: usize)
             } else {
                 // zero from the tail, then individually
                 let mut n = decisions.len();
-                while n > 0 && attempts < budget {
+                while n > 0 && attempts < budget && began.elapsed() <= wall_cap {
                     let mut cand = decisions.clone();
                     cand.truncate(n - 1);
                     if try_d(&cand, &mut attempts) {
@@ -595,7 +600,7 @@ fn minimise(h: &History, class: &str, cfg: &Cfg, oracle: &Oracle, budget: usize)
                     }
                 }
                 for i in 0..decisions.len() {
-                    if attempts >= budget {
+                    if attempts >= budget || began.elapsed() > wall_cap {
                         break;
                     }
                     if decisions[i] != 0 {
@@ -618,7 +623,7 @@ fn minimise(h: &History, class: &str, cfg: &Cfg, oracle: &Oracle, budget: usize)
     // 5. simplify options of the remaining calls
     for t in 0..best.threads.len() {
         for i in 0..best.threads[t].len() {
-            if attempts >= budget {
+            if attempts >= budget || began.elapsed() > wall_cap {
                 break;
             }
             if best.threads[t][i]["opts"] != json!({}) {
